@@ -3,6 +3,7 @@ import math, operator
 import numpy as np
 from .common import Laws, run_subprocess, main_entry
 from .. import inputs
+from . import geom
 
 SPEC = dict(
     lean_modules=['SmVerif.Props.C08'],
@@ -120,11 +121,14 @@ def _impl(tier, seed, search):
         if isinstance(x, list): return ('kind', 'list')
         return ('cls', type(x).__name__)
     def elements_ok(x):
-        """a returned library object must hold only elements of its own shape (no None / foreign arrays)"""
+        """a returned library object must hold only elements of its own shape (no None / foreign arrays); a returned pose object
+        must hold members of its own group (a 3x3 rotation matrix inside an SE2 is a foreign element)"""
         if isinstance(x, SMUserList):
             sh = x.shape if not callable(x.shape) else x.shape()
             for a in x.data:
                 if a is None or not isinstance(a, np.ndarray) or a.shape != tuple(sh): return False
+                if type(x).__name__ in ('SE2', 'SE3') and not geom.se_residual(np.asarray(a, float)) <= 1e-6: return False
+                if type(x).__name__ in ('SO2', 'SO3') and not geom.so_residual(np.asarray(a, float)) <= 1e-6: return False
         return True
     reps = 1 if tier == 'quick' else 3
     for _ in range(reps):
@@ -217,6 +221,18 @@ def _impl(tier, seed, search):
                     good = isinstance(x, (bool, np.bool_)) if m == 1 else (isinstance(x, list) and len(x) == m and all(isinstance(b_, (bool, np.bool_)) for b_ in x))
                     if not good: L.fail(f'eq-type:{c}:{opn}:{"single" if m == 1 else "multi"}', f'{c} {opn} {c} (len {m}) returned {x!r}', inp, observed=repr(x))
                     elif m == 1 and bool(x) != (opn == '=='): L.fail(f'eq-value:{c}:{opn}', f'X {opn} X gave {x}', inp)
+        # … and between two different objects of every length pair (1x1, 1xM, Mx1, MxM): one boolean per value of the longer operand
+        for c in POSE + QUAT + ['Twist2', 'Twist3']:
+            for ml, mr in ((1, 1), (1, 2), (2, 1), (2, 2), (1, 3), (3, 1)):
+                for opn, f in (('==', operator.eq), ('!=', operator.ne)):
+                    inp = dict(cls=c, op=opn, len_left=ml, len_right=mr)
+                    L.count('eq-pairs', key=(c, opn, ml, mr)); L.sample('eq-pairs', inp)
+                    try: x = f(mk(c, ml), mk(c, mr))
+                    except Exception as e:
+                        L.fail(f'eq-raises:{c}:{opn}:{ml}x{mr}', f'{c} {opn} {c} (lengths {ml}, {mr}) raised {type(e).__name__}', inp, observed=type(e).__name__); continue
+                    mm = max(ml, mr)
+                    good = isinstance(x, (bool, np.bool_)) if mm == 1 else (isinstance(x, list) and len(x) == mm and all(isinstance(b_, (bool, np.bool_)) for b_ in x))
+                    if not good: L.fail(f'eq-type:{c}:{opn}:{ml}x{mr}', f'{c} {opn} {c} (lengths {ml}, {mr}) returned {x!r} instead of {"a boolean" if mm == 1 else f"a list of {mm} booleans"}', inp, observed=repr(x))
     res = L.result(); res['exhaustive'] = True
     return res
 
